@@ -167,6 +167,7 @@ where
         error: Error,
         event: &Event,
         group: &group_types::Group,
+        is_commit: bool,
     ) -> Result<MessageProcessingResult> {
         match error {
             Error::CannotDecryptOwnMessage => {
@@ -296,13 +297,15 @@ where
             }
             Error::ProcessMessageWrongEpoch(msg_epoch) => {
                 // Check if this commit is "better" than what we have for this epoch
-                let is_better = self.epoch_snapshots.is_better_candidate(
-                    self.storage(),
-                    &group.mls_group_id,
-                    msg_epoch,
-                    event.created_at.as_secs(),
-                    &event.id,
-                );
+                // (only commits are MIP-03 candidates)
+                let is_better = is_commit
+                    && self.epoch_snapshots.is_better_candidate(
+                        self.storage(),
+                        &group.mls_group_id,
+                        msg_epoch,
+                        event.created_at.as_secs(),
+                        &event.id,
+                    );
 
                 if is_better {
                     tracing::info!("Found better commit for epoch {}. Rolling back.", msg_epoch);
